@@ -1,14 +1,19 @@
 #!/usr/bin/env python3
 """Copy confirmed seeded changes from /tmp/seedout into /verif/seeded/<ID>-<k>/ (patch.diff, demo, meta.json)."""
-import json, os, shutil, re
-conf = json.load(open('/tmp/seedout/confirm.json'))
+import json, os, shutil, re, sys
+SEEDOUT = os.environ.get('SEEDOUT', '/tmp/seedout')
+TAG = os.environ.get('SEEDTAG', '')      # e.g. r2- for the second round
+ONLY = set(sys.argv[1:])
+conf = json.load(open(SEEDOUT + '/confirm.json'))
 props = {json.loads(l)['id']: json.loads(l) for l in open('/verif/properties.jsonl')}
 for pid in sorted(conf):
     for k, r in sorted(conf[pid].items()):
+        if ONLY and ('%s/%s' % (pid, k)) not in ONLY:
+            continue
         if not r.get('confirmed'):
             print('skip (unconfirmed)', pid, k); continue
-        src = '/tmp/seedout/%s' % pid
-        dst = '/verif/seeded/%s-%s' % (pid, k)
+        src = '%s/%s' % (SEEDOUT, pid)
+        dst = '/verif/seeded/%s-%s%s' % (pid, TAG, k)
         os.makedirs(dst, exist_ok=True)
         shutil.copy('%s/change%s.diff' % (src, k), dst + '/patch.diff')
         shutil.copy('%s/demo%s.py' % (src, k), dst + '/demo.py')
@@ -16,7 +21,7 @@ for pid in sorted(conf):
         open(dst + '/AGENT_README.md', 'w').write(readme)
         files = sorted(set(re.findall(r'^\+\+\+ b/(\S+)', open(dst + '/patch.diff').read(), re.M)))
         meta = {
-            'id': '%s-%s' % (pid, k), 'property': pid, 'property_title': props[pid]['title'],
+            'id': '%s-%s%s' % (pid, TAG, k), 'property': pid, 'property_title': props[pid]['title'],
             'files_changed': files,
             'origin': 'written by an independent sub-agent that saw only the property text and a scratch worktree of /repo',
             'needs_to_manifest': 'see AGENT_README.md (section for change %s)' % k,
